@@ -348,8 +348,8 @@ def r4_who_may_write(ctx):
     tog = [PI + '::update_zobrist_hash_toggle_piece', PI + '::update_zobrist_hash_toggle_en_passant_target',
            PI + '::update_zobrist_hash_toggle_castling_rights']
     counts = [len(facts.call_sites(t, crate='chess')) for t in tog]
-    ctx.ob(rule, 'update_zobrist_hash_toggle_* call sites', 'piece/ep/rights = %s' % counts, counts[0] >= 2 and counts[1] >= 2 and counts[2] >= 4,
-           found=counts, expected='>= 2/2/4', nontrivial=False)
+    ctx.ob(rule, 'update_zobrist_hash_toggle_* call sites', 'each toggle method has a call site (what each delegator toggles is decided by R1-R3)',
+           all(c >= 1 for c in counts), found=counts, expected='>= 1 each', nontrivial=False)
     # nobody hands out &mut to the private state types
     bad = []
     n = 0
